@@ -104,8 +104,17 @@ func pmatrix(m models.Model, x float64) ([]float64, error) {
 }
 
 // textbookQ: independent Go transcription of the general reversible construction
-// q_ij = s_ij·π_j (i≠j), q_ii = −Σ_{j≠i} q_ij, scaled by −Σ π_i q_ii.
-func textbookQ(n int, s func(i, j int) float64, pi []float64) []float64 {
+// q_ij = s_ij·π_j (i≠j), q_ii = −Σ_{j≠i} q_ij, scaled by −Σ π_i q_ii, for the probability vector
+// π/Σπ (a textbook model's frequencies sum to one).
+func textbookQ(n int, s func(i, j int) float64, freqs []float64) []float64 {
+	tot := 0.0
+	for _, f := range freqs {
+		tot += f
+	}
+	pi := make([]float64, n)
+	for i := range pi {
+		pi[i] = freqs[i] / tot
+	}
 	q := make([]float64, n*n)
 	mr := 0.0
 	for i := 0; i < n; i++ {
